@@ -259,6 +259,22 @@ static u8_t *place_key(const bytes &k)
   memcpy(base + off, k.data(), k.size() < 80 ? k.size() : 80);
   return base + off;
 }
+// A caller may keep ONE buffer for its key / its IV seed and use it for several operations: within one process (= one history)
+// the same key or seed value is handed to the library in the same buffer again, with whatever an earlier operation left in it.
+#include <map>
+static u8_t *persistent_arg(const bytes &v, size_t align_off)
+{
+  static std::map<std::string, u8_t *> store;
+  std::string k = hex(v) + "/" + std::to_string(align_off);
+  auto it = store.find(k);
+  if (it != store.end())
+    return it->second;
+  u8_t *base = (u8_t *)malloc(v.size() + 64);
+  memset(base, 0xA5, v.size() + 64);
+  memcpy(base + align_off, v.data(), v.size());
+  store[k] = base + align_off;
+  return base + align_off;
+}
 static int result_code(const std::string &txt)
 {
   if (txt.find("Verification passed!") != std::string::npos || txt.find("Decryption is over!") != std::string::npos)
@@ -289,8 +305,9 @@ static std::string op_enc(const std::vector<std::string> &a)
   bool r;
   {
     Settings st(cm, hm, true);
-    runcrypt rc(fin, fo, place_key(key), st, (u8_t)T);
-    r = rc.execute_encrypt(plain.size(), seed.data());
+    key.resize(16);
+    runcrypt rc(fin, fo, persistent_arg(key, key[0] & 7), st, (u8_t)T);
+    r = rc.execute_encrypt(plain.size(), persistent_arg(seed, 0));
   }
   bytes after = read_file(inpath);
   unlink(inpath.c_str());
@@ -351,7 +368,8 @@ static std::string op_decver(const std::vector<std::string> &a, bool dec)
   cap_begin();
   {
     Settings st(-1, -1, false);
-    u8_t *kp = place_key(key);
+    key.resize(16);
+    u8_t *kp = persistent_arg(key, key[0] & 7);
     wv_alloc_arm(true);
     runcrypt rc(fin, fo, kp, st, (u8_t)T);
     r = dec ? rc.execute_decrypt(file.size()) : rc.execute_verify(file.size());
